@@ -10,7 +10,7 @@ def check(run):
     c = ctx(run)
     std(run)
     IO.ast_clauses(run, c.src)
-    for k in ("io:common.MetadataBase.dump", "io:treeinfo.TreeInfo.dump"):
+    for k in ("io:common.MetadataBase.dump", "io:treeinfo.TreeInfo.dump", "io:treeinfo.TreeInfo.dump:mv"):
         verify.verify(run, c.E, c.contracts[k])
     # the callee contracts the effect-order proof relies on: serialize/validate raise only TypeError/ValueError (C06) -- witness that
     # a nested writer CAN fail after the top-level validation passed (the raises clause is satisfiable, not vacuous)
@@ -42,7 +42,7 @@ def check(run):
             ob.undecided("unexpected effect sequence %r" % ([r.value for r in res],))
     # bounded: every format x every nested validation failure (real invalid values), destination compared byte for byte
     import random
-    for k in ("io:common.MetadataBase.dump", "io:treeinfo.TreeInfo.dump"):
+    for k in ("io:common.MetadataBase.dump", "io:treeinfo.TreeInfo.dump", "io:treeinfo.TreeInfo.dump:mv"):
         con = c.contracts[k]
         t0 = time.time()
         n = 0
